@@ -12,6 +12,7 @@ EXPL = ("Decides on MIR for both type families: PartialEq compares only like-nam
 
 def run(ctx):
     cfgs = ["rel"] if ctx.tier == "quick" else ["rel", "dbg", "unsafe", "nodef"]
+    ctx.progs(cfgs)  # build all configurations in parallel
     for c in cfgs:
         prog = ctx.prog(c)
         ctx.guard("C16", "plain", lambda: eqord.eq_hash_ord(ctx, prog, "FuzzyHashData"))
